@@ -43,7 +43,7 @@ func VerifC10Instance() {
 	}
 	if vf.NondetIntRange("hasSettings", 0, 1) == 1 {
 		bpm := op.BPM(vf.NondetUint("bpm"))
-		vf.Assume(bpm >= 1)
+		vf.Assume(bpm >= 4) // a tempo a MIDI file can state (smaller ones are refused when read: ScalarCodecs)
 		vf.Assume(uint(bpm) <= 999)
 		x.BPM = &bpm
 		d := op.DynamicSign(vf.NondetIntRange("dyn", 1, 6))
